@@ -94,7 +94,8 @@ def tagH : Handler := fun j => do
   match tagMain X (fun _ _ => taxa) src with
   | .error e => pure (Json.mkObj [("exc", jName e.name)])
   | .ok r => pure (Json.mkObj [
-      ("labels", jPairs (fun (s : List Span3) => jPoors (s.map Span3.poor))
+      ("labels", jPairs (fun (s : List Span3) => Json.arr (s.map fun (x : Span3) =>
+          Json.arr #[jInt x.1, jInt x.2.1, jName x.2.2]).toArray)
         (r.1.map fun l => (l.name, l.spans))),
       ("taxa", jNames (r.2.map (·.name)))])
 
